@@ -22,12 +22,14 @@ import (
 	endpointcontract "github.com/teleport-network/teleport/syscontracts/xibc_endpoint"
 	packetcontract "github.com/teleport-network/teleport/syscontracts/xibc_packet"
 	aggtypes "github.com/teleport-network/teleport/x/aggregate/types"
+	"github.com/teleport-network/teleport/x/xibc"
 	xibctmtypes "github.com/teleport-network/teleport/x/xibc/clients/light-clients/tendermint/types"
 	tsstypes "github.com/teleport-network/teleport/x/xibc/clients/tss-client/types"
 	clienttypes "github.com/teleport-network/teleport/x/xibc/core/client/types"
 	commitmenttypes "github.com/teleport-network/teleport/x/xibc/core/commitment/types"
 	"github.com/teleport-network/teleport/x/xibc/core/host"
 	packettypes "github.com/teleport-network/teleport/x/xibc/core/packet/types"
+	xibctypes "github.com/teleport-network/teleport/x/xibc/types"
 )
 
 // World is a set of teleport chains connected pairwise by tendermint light
@@ -300,6 +302,32 @@ func (w *World) Commit(n string) int {
 	}
 	w.Snap[n] = append(w.Snap[n], snap)
 	return len(w.AbsH[n]) - 1
+}
+
+// Regenesis restarts chain n's xibc module from its own exported genesis: export, JSON round trip, validation, the
+// module store emptied, InitGenesis (what a chain restarted from an exported genesis file runs).
+func (w *World) Regenesis(n string) (res string, msg string) {
+	c := w.Chains[n]
+	defer func() {
+		if r := recover(); r != nil {
+			res, msg = "panic", fmt.Sprint(r)
+		}
+	}()
+	gs := xibc.ExportGenesis(c.Ctx(), *c.App.XIBCKeeper)
+	bz, err := c.App.AppCodec().MarshalJSON(gs)
+	if err != nil {
+		return "err", "marshal: " + err.Error()
+	}
+	var back xibctypes.GenesisState
+	if err := c.App.AppCodec().UnmarshalJSON(bz, &back); err != nil {
+		return "err", "unmarshal: " + err.Error()
+	}
+	if err := back.Validate(); err != nil {
+		return "err", "validate: " + err.Error()
+	}
+	xibc.ResetStates(c.Ctx(), c.App.GetKey(host.StoreKey), *c.App.XIBCKeeper)
+	xibc.InitGenesis(c.Ctx(), *c.App.XIBCKeeper, false, &back)
+	return "ok", ""
 }
 
 // Supply limits of the endpoint contract (governance proposals of the aggregate module).
